@@ -202,6 +202,9 @@ var vPosExtra = []string{
 	"a = b[1:2][::-1]",
 	"c = a.b.c[0].d",
 	"z = !(-a) + (+1.5) * -2",
+	// line breaks inside tokens: a back-quoted name and a triple-quoted string spanning lines
+	"`a\nb` = 1\nx = `a\nb` + 2\ny = x",
+	"s = '''l1\n\nl3''' ; t = `p\n\nq`\nu = [s,\n t]\nf(u)",
 }
 
 // VerifTreePositions: parse every form of the layout family (with every filler in one gap)
